@@ -174,6 +174,7 @@ def main(prop, argv=None):
     ap.add_argument("--no-selftest", action="store_true")
     ap.add_argument("--max-jobs", type=int, default=None)
     args = ap.parse_args(argv)
+    order.install()
     if args.replay:
         return do_replay(prop, args.replay)
     if args.digest_jobs:
